@@ -57,7 +57,7 @@ var classes = []classSpec{
 	{`\pL`, []string{"a", "é", "日", "\u212a", "\u017f"}},
 }
 
-var literals = []string{"a", "b", "c", "ab", "abc", "x", "é", "日本", "ß", ".", "+", "(", ")", "*", "[", " ", "\n", "\r\n", "\"", "'", "<", "&", ">", "-", "0", "1", "12", "=", "\\", "K", "k", "s", "ks", "key", "Sk", "#", "/*", "*/", "${", "}", "`", "\x1b[", "\x7f", "\v", "\a", "\U000E0001"}
+var literals = []string{"a", "b", "\\u003c", "c", "ab", "\\u0026amp", "abc", "x", "é", "日本", "ß", ".", "+", "(", ")", "*", "[", " ", "\n", "\r\n", "\"", "'", "<", "&", ">", "-", "0", "1", "12", "=", "\\", "K", "k", "s", "ks", "key", "Sk", "#", "/*", "*/", "${", "}", "`", "\x1b[", "\x7f", "\v", "\a", "\U000E0001"}
 
 var anchors = []string{`^`, `$`, `\b`, `\B`, `(?m:^)`, `(?m:$)`, `\A`, `\z`}
 
